@@ -29,7 +29,7 @@ class InjectedBase(BaseException):
 
 def main():
     tier = common.tier()
-    nshards, nprogs = (16, 3) if tier == "quick" else (32, 60)
+    nshards, nprogs = (16, 2) if tier == "quick" else (32, 60)
     jobs = [dict(seed="%d/%s/%d" % (common.seed(), PROP, s), nprogs=nprogs) for s in range(nshards)]
     R = common.Run(PROP, "fault_enumeration", RULE)
     for job, res, err in shard.run_jobs("vf.checks.C08", "worker", jobs, timeout=3600, nproc=16):
